@@ -1,7 +1,185 @@
-(** C19 (provisional: interval, retry, refutations; the invariants follow). *)
-From Ldlm Require Import Model.Base Model.Err Model.Seq Model.Client Gen.Consts Proofs.ClientP.
+(** C19 — Go client: auto-renew keeps holds alive, stops at Unlock, handles many holds; retry rule.
+
+    "With auto-renew on and a lock timeout above the client's minimum renew interval, a hold obtained through the Go
+    client does not expire while the client is alive and has not unlocked it; once Unlock has returned no further renew
+    for that hold is sent and nothing panics, for every timing of Unlock against the renew loop. Several holds, including
+    several of the same counting lock, are renewed and unlocked independently, and only transport-unavailable errors are
+    retried, at most MaxRetries times."
+
+    The theorems are about Mclient (Model/Client.v: client/client.go transcribed, renew loop split into its atomic steps,
+    Stop() as the non-blocking send it is) running over Mseq (Model/Seq.v), in virtual time, for schedules of arbitrary
+    length. Gen/Consts.v (MinRenewSeconds, RetryDelaySeconds, the interval formula of renewer.Start) is regenerated from
+    the tree under test on every run, so C19_interval and everything resting on it is re-proved against the current
+    constants. The literal "for every timing of Unlock" and "several of the same counting lock" clauses are FALSE of the
+    faithful model: C19_stop_refuted (F-STOPDROP) and C19_multi_refuted_* (F-RENEWMAP) exhibit the schedules (both
+    reproduced on the real client by the harness); the clauses are proved outside exactly those two signatures
+    ([excluded_stopdrop], [excluded_renewmap], decidable predicates over the executed schedule). [wf_sched] restricts the
+    use of the API to what the property speaks about: no call on a closed client, no second Unlock of one hold. *)
+From Ldlm Require Import Model.Base Model.Err Model.Seq Model.Client Gen.Consts.
+From Ldlm Require Import Proofs.ClientSrvDefs Proofs.ClientSrv Proofs.ClientInvDefs Proofs.ClientP Proofs.ClientBasic Proofs.ClientStop Proofs.ClientAlive Proofs.ClientMulti.
 Local Open Scope Z_scope.
 
+(** ** The interval (over the regenerated constants) *)
+
+(** a lock timeout above MinRenewSeconds is renewed strictly before it runs out, and not in a busy loop *)
 Theorem C19_interval : ∀ T, client_MinRenewSeconds < T → 0 < interval T < T.
 Proof. exact interval_bounds. Qed.
 Print Assumptions C19_interval.
+
+(** what the property excludes: with T <= MinRenewSeconds the first renew comes no earlier than the end of the lease *)
+Theorem C19_interval_excluded : ∀ T, T ≤ client_MinRenewSeconds → T ≤ interval T.
+Proof. exact interval_small. Qed.
+Print Assumptions C19_interval_excluded.
+
+Theorem C19_formula_recognised : renew_formula_recognised = true.
+Proof. exact renew_formula_ok. Qed.
+Print Assumptions C19_formula_recognised.
+
+Example C19_interval_ex :
+  interval 11 = 10 ∧ interval 30 = 10 ∧ interval 31 = 10 ∧ interval 45 = 15 ∧ interval 90 = 60 ∧ interval 5 = 10 ∧
+  cs_crashed (run cc_auto [ILock la 5 1; IAdvance (10 * second)]) = Some (CrRenewFailed 0).
+Proof. vm_compute. repeat split; reflexivity. Qed.
+
+(** ** A renewed hold never expires *)
+
+(** For a hold obtained with auto-renew and T > MinRenewSeconds, in every run (of any length) in which no Unlock of it
+    and no Close has been called, and in which virtual time is never advanced beyond the slack T - interval T while a
+    Renew of it is in flight ([timely]: lag = answer latency of the previous Renew + request latency of this one):
+    its renewer is never the goroutine that panics, and as long as the process is alive the server-side lease is armed
+    with a deadline ([r_eff + T]) that lies after the present instant and after the next renew instant, and the hold
+    occupies its unit of the lock. [excluded_renewmap]: see C19_multi_refuted_quiet — it is needed. *)
+Theorem C19_alive : ∀ cc sched j h,
+  cc_noauto cc = false → wf_sched cc sched = true → excluded_renewmap cc sched = false →
+  timely cc j sched = true →
+  let st := run cc sched in
+  cs_holds st !! j = Some h → h_locked h = true → client_MinRenewSeconds < h_T h →
+  h_unl h = false → cs_closed st = false →
+  cs_crashed st ≠ Some (CrRenewFailed j) ∧ cs_crashed st ≠ Some (CrSendClosed j) ∧
+  (cs_crashed st = None →
+     ∃ r, h_ren h = Some r ∧ lease_inv st h r ∧ lease_ok st j = true ∧ held st j = true).
+Proof. exact t_alive. Qed.
+Print Assumptions C19_alive.
+
+(** ** The retry rule *)
+
+(** rpcWithRetry with budget n >= 0 on any script of transport outcomes: at most n+1 calls; a further call only after
+    Unavailable; RetryDelaySeconds of sleep before every further call; the last outcome is returned, and it is
+    Unavailable only if the budget is used up. ([None]: the script ended first, all of it Unavailable.) *)
+Theorem C19_retry : ∀ (A : Type) (n : Z) (outs : list (toutcome A)) r calls sleeps,
+  0 ≤ n →
+  rpc_with_retry n outs = (r, calls, sleeps) →
+  Z.of_nat calls ≤ n + 1 ∧ (calls ≤ length outs)%nat ∧
+  (∀ i, (S i < calls)%nat → outs !! i = Some TUnavailable) ∧
+  sleeps = repeat client_RetryDelaySeconds (length sleeps) ∧
+  match r with
+  | Some o =>
+      (1 ≤ calls)%nat ∧ outs !! (calls - 1)%nat = Some o ∧ length sleeps = (calls - 1)%nat ∧
+      (is_unavailable o = true → Z.of_nat calls = n + 1)
+  | None => calls = length outs ∧ length sleeps = calls ∧ ∀ i o, outs !! i = Some o → o = TUnavailable
+  end.
+Proof. exact @retry_spec. Qed.
+Print Assumptions C19_retry.
+
+Example C19_retry_ex :
+  rpc_with_retry 2 [TUnavailable; TUnavailable; TOk 7; TOk 8] = (Some (TOk 7), 3%nat, [client_RetryDelaySeconds; client_RetryDelaySeconds]) ∧
+  rpc_with_retry 1 [TUnavailable; TUnavailable; TOk 7] = (Some (@TUnavailable Z), 2%nat, [client_RetryDelaySeconds]) ∧
+  rpc_with_retry 3 [TUnavailable; TOtherErr 4; TOk 7] = (Some (@TOtherErr Z 4), 2%nat, [client_RetryDelaySeconds]) ∧
+  rpc_with_retry 0 [@TUnavailable Z] = (Some TUnavailable, 1%nat, []).
+Proof. vm_compute. repeat split; reflexivity. Qed.
+
+(** ** After Unlock has returned *)
+
+(** The literal clause — for EVERY position of the renewer — is false (F-STOPDROP, stop_while_renewer_in_rpc): Unlock while
+    the renewer has left its select (its Renew kept in flight): Stop()'s non-blocking send is dropped, the Renew of the
+    unlocked hold reaches the server after Unlock has returned, fails, and the goroutine panics. *)
+Theorem C19_stop_refuted :
+  ∃ cc sched j h,
+    cc_noauto cc = false ∧ wf_sched cc sched = true ∧ excluded_renewmap cc sched = false ∧ timely cc j sched = true ∧
+    cs_holds (run cc sched) !! j = Some h ∧ h_locked h = true ∧ client_MinRenewSeconds < h_T h ∧ h_unl h = true ∧
+    p_stop j (cs_trace (run cc sched)) = false ∧ no_crash (cs_trace (run cc sched)) = false.
+Proof. exact stop_refuted. Qed.
+Print Assumptions C19_stop_refuted.
+
+(** Outside that signature — no Unlock / Close calls Stop() on a renewer that has left its select — for every schedule and
+    every hold: after Unlock of the hold has returned, no Renew of it reaches the server (or is attempted on a closed
+    connection) and its renewer does not panic; the goroutine of an unlocked hold has returned. *)
+Theorem C19_stop_holds_outside : ∀ cc sched j,
+  wf_sched cc sched = true → excluded_stopdrop cc sched = false →
+  p_stop j (cs_trace (run cc sched)) = true ∧
+  (∀ h, cs_crashed (run cc sched) = None → cs_holds (run cc sched) !! j = Some h → h_unl h = true → ¬ running (run cc sched) j).
+Proof. exact t_stop. Qed.
+Print Assumptions C19_stop_holds_outside.
+
+Example C19_stop_ex :
+  excluded_stopdrop cc_auto stopdrop_witness = true ∧ excluded_stopdrop cc_auto stopdrop_witness_post = true ∧
+  p_stop 0 (cs_trace (run cc_auto stopdrop_witness_post)) = false ∧
+  wf_sched cc_auto good_witness = true ∧ excluded_stopdrop cc_auto good_witness = false ∧
+  p_stop 1 (cs_trace (run cc_auto good_witness)) = true.
+Proof. vm_compute. repeat split; reflexivity. Qed.
+
+(** ** Several holds *)
+
+(** "including several of the same counting lock" is false (F-RENEWMAP, second_hold_same_name_autorenew; renewMap is keyed by
+    lock NAME): two auto-renewed holds of one name panic "client out of sync"; *)
+Theorem C19_multi_refuted_panic :
+  ∃ cc sched,
+    cc_noauto cc = false ∧ wf_sched cc sched = true ∧ excluded_stopdrop cc sched = false ∧
+    timely cc 0 sched = true ∧ timely cc 1 sched = true ∧
+    cs_crashed (run cc sched) = Some (CrOutOfSync 1).
+Proof. exact multi_refuted_panic. Qed.
+Print Assumptions C19_multi_refuted_panic.
+
+(** and when the second hold has no lock timeout nothing panics, but unlocking it stops the renewer filed under the name —
+    the first hold's — and the first hold expires although the client is alive, has not unlocked it, and every Renew
+    was answered at once: the holds are not independent. *)
+Theorem C19_multi_refuted_quiet :
+  ∃ cc sched j h,
+    cc_noauto cc = false ∧ wf_sched cc sched = true ∧ excluded_stopdrop cc sched = false ∧ timely cc j sched = true ∧
+    cs_holds (run cc sched) !! j = Some h ∧ h_locked h = true ∧ client_MinRenewSeconds < h_T h ∧ h_unl h = false ∧
+    cs_closed (run cc sched) = false ∧ cs_crashed (run cc sched) = None ∧
+    lease_ok (run cc sched) j = false ∧ held (run cc sched) j = false.
+Proof. exact multi_refuted_quiet. Qed.
+Print Assumptions C19_multi_refuted_quiet.
+
+(** Outside that signature (holds of this client that are held at the same time and of which one has a lock timeout are on
+    pairwise different names): no out-of-sync panic; every hold keeps its own guarantee under its own hypotheses only —
+    hold j stays alive if ITS Renews are timely, whatever happens to the others; Unlock of hold j ends exactly renewer j. *)
+Theorem C19_multi_holds_outside : ∀ cc sched,
+  cc_noauto cc = false → wf_sched cc sched = true → excluded_renewmap cc sched = false →
+  let st := run cc sched in
+  no_twin st ∧
+  (∀ j, cs_crashed st ≠ Some (CrOutOfSync j)) ∧
+  (∀ j h, timely cc j sched = true →
+     cs_holds st !! j = Some h → h_locked h = true → client_MinRenewSeconds < h_T h → h_unl h = false → cs_closed st = false →
+     cs_crashed st ≠ Some (CrRenewFailed j) ∧ cs_crashed st ≠ Some (CrSendClosed j) ∧
+     (cs_crashed st = None → lease_ok st j = true ∧ held st j = true)) ∧
+  (excluded_stopdrop cc sched = false → ∀ j, p_stop j (cs_trace st) = true).
+Proof. exact multi_holds_outside. Qed.
+Print Assumptions C19_multi_holds_outside.
+
+(** the hypotheses are satisfiable together on a non-trivial run: three holds with timeouts 11, 90, 31 on different names, a
+    Renew kept 300 ms before and 200 ms after the server, 600 s of idle time, one hold unlocked while its renewer sleeps *)
+Example C19_multi_ex :
+  wf_sched cc_auto good_witness = true ∧
+  excluded_stopdrop cc_auto good_witness = false ∧ excluded_renewmap cc_auto good_witness = false ∧
+  timely cc_auto 0 good_witness = true ∧ timely cc_auto 1 good_witness = true ∧ timely cc_auto 2 good_witness = true ∧
+  cs_crashed (run cc_auto good_witness) = None ∧ cs_closed (run cc_auto good_witness) = false ∧
+  lease_ok (run cc_auto good_witness) 0 = true ∧ held (run cc_auto good_witness) 0 = true ∧
+  lease_ok (run cc_auto good_witness) 2 = true ∧ held (run cc_auto good_witness) 2 = true ∧
+  lease_ok (run cc_auto good_witness) 1 = false ∧ held (run cc_auto good_witness) 1 = false ∧
+  p_stop 1 (cs_trace (run cc_auto good_witness)) = true ∧
+  (20 < length (cs_trace (run cc_auto good_witness)))%nat.
+Proof. exact good_witness_facts. Qed.
+
+(** ** What the client model stands on *)
+
+(** every schedule keeps the structure: renewMap entries are granted, not unlocked holds with a renewer, filed under their
+    name; the server has no waiter; lease timers are filed under the key of the hold they release *)
+Theorem C19_structure : ∀ cc sched, basic cc (run cc sched).
+Proof. exact t_basic. Qed.
+Print Assumptions C19_structure.
+
+(** Mseq facts used (proved in Proofs/ClientSrv.v about Model/Seq.v) *)
+Theorem C19_server_facts : srv_facts.
+Proof. exact srv_facts_hold. Qed.
+Print Assumptions C19_server_facts.
